@@ -254,3 +254,76 @@ func verifH_C18_nil_pointers() {
 	}
 	verifReach("end")
 }
+
+// ---- JSON tag corner cases ----
+
+type verifShadowInner struct {
+	A int    `json:"a"`
+	I string `json:"i"`
+}
+
+// the outer field shadows the embedded one: encoding/json writes the outer string
+type verifShadowOuterFirst struct {
+	A string `json:"a"`
+	verifShadowInner
+}
+
+type verifShadowInnerFirst struct {
+	verifShadowInner
+	A string `json:"a"`
+}
+
+type verifStringTag struct {
+	N int     `json:"n,string"`
+	B bool    `json:"b,string"`
+	F float64 `json:"f,string"`
+	S string  `json:"s,omitempty"`
+}
+
+type verifRenamed struct {
+	Plain    int `json:"-,"` // the field is named "-"
+	Untagged int
+	lower    int               // unexported: never encoded
+	M        map[string]string `json:"m,omitempty"`
+}
+
+//verif:harness id=C18 tier=quick,thorough witness=end bounds="JSON tag corner cases: an outer field shadowing an embedded struct's field of another type (both declaration orders), the ,string option on int / bool / float64, a field named '-' (tag '-,'), an untagged exported field, an unexported field, omitempty on string and map; integer leaves symbolic; each type's encoding must validate against its generated schema"
+func verifH_C18_tags() {
+	var v any
+	var enc map[string]any
+	known := ""
+	switch verifChoose("type", 4) {
+	case 0:
+		v = &verifShadowOuterFirst{}
+		enc = map[string]any{"a": "s", "i": "t"}
+		known = "C18-shadowed-embedded-field"
+	case 1:
+		v = &verifShadowInnerFirst{}
+		enc = map[string]any{"a": "s", "i": "t"}
+		known = "C18-shadowed-embedded-field"
+	case 2:
+		v = &verifStringTag{}
+		enc = map[string]any{"n": "5", "b": "true", "f": "1.5"}
+		if verifChoose("hasS", 2) == 1 {
+			enc["s"] = "x"
+		}
+		known = "C18-string-tag-option-ignored"
+	case 3:
+		v = &verifRenamed{}
+		enc = map[string]any{"-": float64(verifNondetInt16("plain")), "Untagged": float64(verifNondetInt32("u"))}
+		if verifChoose("hasM", 2) == 1 {
+			enc["m"] = map[string]any{"k": "v"}
+		}
+	}
+	ref, err := NewSchemaRefForValue(v, nil)
+	verifAssert(err == nil && ref != nil && ref.Value != nil, "C18 tags: a schema is generated")
+	if err != nil || ref == nil || ref.Value == nil {
+		return
+	}
+	verr := ref.Value.VisitJSON(enc)
+	if known != "" {
+		verifKnown(known, true)
+	}
+	verifAssert(verr == nil, "C18 tags: the generated schema accepts the JSON encoding of the value")
+	verifReach("end")
+}
